@@ -199,13 +199,13 @@ def run_check(mod, tier, seed, replay=None):
             print("KNOWN-FINDING: property=%s %s %s (%d cases in this run)" % (pid, kid, e["what"], n))
         shown = 0
         for inp, rec, clause, sig in violations:
-            path = write_replay(pid, inp, rec, clause)
             if shown < 20:
+                path = write_replay(pid, inp, rec, clause)
                 print("VIOLATION property=%s replay=%s clause=%s sig=%s" % (
                     pid, path, clause, json.dumps(sig, sort_keys=True)))
             shown += 1
         if shown > 20:
-            print("... %d more violations of %s (replay files written)" % (shown - 20, pid))
+            print("... %d more violations of %s" % (shown - 20, pid))
 
         # evidence
         nontriv = set()
